@@ -217,6 +217,8 @@ type c39Hist struct {
 const (
 	c39ClassReorgGap     = "reorg-markers-deleted-before-head-update"
 	c39ClassSetHeadAbove = "sethead-crash-leaves-canonical-above-head"
+	c39ClassGenesisInit  = "pathdb-genesis-init-crash-unopenable"
+	c39ClassGenesisStateless = "pathdb-rewind-to-genesis-crash-stateless-head"
 )
 
 func c39Known(class string) bool {
@@ -534,9 +536,26 @@ func (h *c39Hist) reopen(rt c39T, img c39Image) (nontrivial bool, class string) 
 	if err := img.point.files.WriteTo(ancient); err != nil {
 		rt.Fatalf("VERIF-HARNESS-BUG: writing the freezer image failed: %v", err)
 	}
+	if rawdb.ReadHeadBlockHash(kv) == (common.Hash{}) && sc.Scheme == rawdb.PathScheme && c39Known(c39ClassGenesisInit) {
+		// known finding: a crash between flushAlloc's triedb.Commit and the genesis block
+		// batch leaves a path database that Genesis.Commit can never initialise again
+		h.excluded++
+		return false, "excluded"
+	}
 	// (1) open succeeds
 	db, err := rawdb.Open(kv, rawdb.OpenOptions{Ancient: ancient})
 	if err != nil {
+		if strings.Contains(err.Error(), "ancient chain segments already extracted") && c39Known(c39ClassReorgGap) &&
+			(strings.HasPrefix(img.point.label, "canon[") || strings.HasPrefix(img.point.label, "side")) {
+			if v, _ := kv.Get(append(append([]byte("h"), 0, 0, 0, 0, 0, 0, 0, 1), 'n')); len(v) == 0 {
+				// known finding (same root cause as the marker gap): a reorg down to block 1 was
+				// cut between deleting the old number->hash entries and writing the new head;
+				// with an empty freezer rawdb.Open then takes the missing entry #1 for a sign
+				// of a misplaced ancient store and refuses to start
+				h.excluded++
+				return false, "excluded"
+			}
+		}
 		h.failf(rt, img, "rawdb.Open on the crash image failed: %v", err)
 	}
 	defer db.Close()
@@ -563,6 +582,14 @@ func (h *c39Hist) reopen(rt c39T, img c39Image) (nontrivial bool, class string) 
 		}
 	}
 	// (1) head state available, opens and iterates
+	if !chain.HasState(H.Root) && H.Number.Sign() == 0 && sc.Scheme == rawdb.PathScheme && img.point.label == "sethead" &&
+		chain.StateRecoverable(H.Root) && c39Known(c39ClassGenesisStateless) {
+		// known finding: a rewind to genesis cut inside triedb.Recover leaves head = genesis
+		// with a state that is only recoverable; NewBlockChain treats a stateless genesis as
+		// "waiting for state sync" and does not finish the rollback
+		h.excluded++
+		return false, "excluded"
+	}
 	if !chain.HasState(H.Root) {
 		h.failf(rt, img, "state of the head block #%d is not available after recovery", H.Number)
 	}
@@ -759,6 +786,26 @@ func c39SideClass(sc *c39Scenario) string {
 	}
 }
 
+// c39Collector turns Fatalf into a recoverable panic so that a debugging run
+// (VERIF_C39_COLLECT=1) can list every failing image instead of stopping at the first.
+type c39Collector struct{ msgs []string }
+type c39Collected struct{ msg string }
+
+func (c *c39Collector) Fatalf(format string, a ...any) { panic(c39Collected{fmt.Sprintf(format, a...)}) }
+
+func (c *c39Collector) try(f func()) {
+	defer func() {
+		if r := recover(); r != nil {
+			if cc, ok := r.(c39Collected); ok {
+				c.msgs = append(c.msgs, cc.msg)
+				return
+			}
+			panic(r)
+		}
+	}()
+	f()
+}
+
 // c39Fixed are hand-picked scenarios for which EVERY key-value event is a crash point
 // (kill image, plus the maximal power-loss image back to the last sync).
 func c39Fixed() []*c39Scenario {
@@ -780,6 +827,17 @@ func TestVerifC39EveryEvent(t *testing.T) {
 	if !vs.Thorough() {
 		scs = scs[:2]
 	}
+	var collect *c39Collector
+	if os.Getenv("VERIF_C39_COLLECT") != "" {
+		collect = &c39Collector{}
+		scs = c39Fixed()
+		defer func() {
+			for _, m := range collect.msgs {
+				t.Logf("COLLECTED: %s", m)
+			}
+			t.Logf("COLLECTED %d failing images", len(collect.msgs))
+		}()
+	}
 	for i, sc := range scs {
 		c := st.Case()
 		h := c39RunHistory(t, sc, -1)
@@ -792,6 +850,10 @@ func TestVerifC39EveryEvent(t *testing.T) {
 			}
 			for _, n := range prefixes {
 				c.Fault()
+				if collect != nil {
+					collect.try(func() { h.reopen(collect, c39Image{point: p, prefix: n}) })
+					continue
+				}
 				nt, class := h.reopen(t, c39Image{point: p, prefix: n})
 				c.Class("crash:" + class)
 				anyNT = anyNT || nt
